@@ -286,7 +286,7 @@ func c05Failure(p *core.Prog, r *core.Report) {
 			continue
 		}
 		sets := map[string]bool{}
-		for _, c := range core.CallsIn(f, "messageExchangeSet.stopExchanges") {
+		for _, c := range p.CallsDeep(f, 2, "messageExchangeSet.stopExchanges") {
 			sets[recvFieldName(c)] = true
 		}
 		// reached on every path where this invocation won the stoppedExchanges CAS
